@@ -151,7 +151,8 @@ def edge_string_values():
     for b in EDGE_STRINGS:
         out += [("S", b), ("Y", b), ("B", b)]
     for b in EDGE_STRINGS[256:]:
-        out += [("A", b), ("l", [("S", b), ("Y", b)]), ("m", [(("S", b), ("B", b))]), ("R", ("S", b)), ("c", b"m", b"n", [("S", b)])]
+        out += [("A", b), ("l", [("S", b), ("Y", b)]), ("m", [(("S", b), ("B", b))]), ("R", ("S", b)), ("R", ("Y", b)), ("R", ("B", b)),
+                ("R", ("t", [("S", b)])), ("c", b"m", b"n", [("S", b)])]
     # globals whose module or name holds a newline (only STACK_GLOBAL can carry them: documented error below protocol 4)
     for m, n in ((b"m", b"a\n."), (b"m\n", b"n"), (b"m", b"\n"), (b"\nm", b"n\n"), (b"mod", b"a\nb"), (b"m", b"n")):
         out += [("C", m, n), ("c", m, n, [("I", 1)]), ("t", [("C", m, n), ("I", 2)])]
